@@ -24,6 +24,13 @@ RULE = ("case 'seq' = (matrix with 1..5 frames, 0..4 signals each, sender/receiv
         "its separator exchanged, one word of a composed name); deletion by string takes, besides the patterns, the exact name of an ECU in "
         "use - also a name an earlier rename of the sequence has given -, the words of a composed name joined by another separator (no "
         "ECU of that name) and patterns with the separator in them. "
+        "A fifth stream of 'seq' cases (over all four kinds of ECU names) has frames and signals WITHOUT AN IDENTITY OF THEIR OWN: 2..6 frames whose "
+        "names are drawn with repetition from a family of two to four names (several frames of one name, several frames without a name, a frame "
+        "named like an ECU), signal names drawn with repetition from a small family (the same signal name twice in a frame and in several "
+        "frames, signals without a name), identifiers that collide (the same number as standard and as extended identifier, several frames with "
+        "identifier 0, the very same identifier twice) and sender/receiver lists drawn from 3..6 ECU names only, so that one ECU is referenced "
+        "by several of the frames that share a name; frames are told apart by their position in the matrix only. The receiver operations "
+        "address the frames and signals by these names and by patterns. "
         "case 'glob' = (pattern, name) for the glob matcher itself, also on the related, the long and the composed names. Non-trivial = distinct sequence in which at least one "
         "operation changed the matrix.")
 PARTIAL = ["Ecu objects are modelled by their names (comment and attributes of an ECU play no role in reference maintenance)"]
@@ -212,6 +219,48 @@ def gen_matrix(rng, POOL=POOL):
     return {"ecus": listed, "frames": frames, "free": free}
 
 
+FRAME_FAMILIES = [["NM", "NM", "Diag"], ["", "", "F1"], ["F1", "F1", "Msg_1", "F0"], ["NM", ""], ["Msg_1", "Msg_2", "Msg_1", "F12"], ["", ""], ["X"],
+                  ["Status", "status", "Status "], ["F1", "F*"], ["NM_Engine", "NM", "NM_Engine"]]
+SIGNAL_FAMILIES = [["State", "Counter"], ["s0_0", "s1_1", "s1_2"], ["", "State"], ["NM_State"], ["s0_0", "s0_0", "S0_0", "s1_0"], ["CRC", "Alive", "State", ""]]
+ID_FAMILIES = [[[0, False]], [[0, False], [0, True]], [[1, False], [1, True], [2, False]], [[0x400, False], [0x400, False], [0x401, False]],
+               [[0x7FF, False], [0x7FF, True], [0x1FFFFFFF, True]], None, None]
+
+
+def gen_matrix_shared(rng, pool):
+    """a matrix whose frames (and signals) cannot be told apart by name or identifier: names and identifiers are drawn with repetition
+    from small families; the references come from a few ECU names, so that an ECU is referenced by several frames of one name"""
+    few = rng.sample(pool, min(len(pool), rng.randint(3, 6)))
+    listed = [e for e in pool if rng.random() < (0.8 if e in few else 0.3)]
+    rng.shuffle(listed)
+    fam = list(rng.choice(FRAME_FAMILIES))
+    if rng.random() < 0.15:
+        fam.append(rng.choice(few))  # a frame named like an ECU
+    sfam = rng.choice(SIGNAL_FAMILIES)
+    ifam = rng.choice(ID_FAMILIES)
+    frames, ids = [], []
+    for k in range(rng.randint(2, 6)):
+        tx = rng.sample(few, rng.choice([0, 1, 1, 2]))
+        sigs = []
+        for j in range(rng.randint(0, 4)):
+            sigs.append([rng.choice(sfam) if rng.random() < 0.7 else "s%d_%d" % (k, j), rng.sample(few, rng.choice([0, 1, 1, 2, 2, 3]))])
+        rx = dedup([r for s in sigs for r in s[1]])
+        frames.append([rng.choice(fam) if rng.random() < 0.85 else "F%d" % k, tx, rx, sigs])
+        ids.append(list(rng.choice(ifam)) if ifam and rng.random() < 0.85 else [k + 1, rng.random() < 0.3])
+    free = [[rng.choice(sfam + ["free%d" % j]), rng.sample(few, rng.choice([0, 1, 2]))] for j in range(rng.choice([0, 0, 1, 2]))]
+    return {"ecus": listed, "frames": frames, "free": free, "ids": ids, "shared": True}
+
+
+def recv_globs(m):
+    """frame and signal patterns of add/del_signal_receiver: the fixed ones and, for matrices with shared names, the names themselves"""
+    fg, sg = ["*", "F*", "Msg_?", "F1"], ["*", "s?_0", "s1_*", "s*_[12]"]
+    if m.get("shared"):
+        fnames = dedup([f[0] for f in m["frames"]])
+        snames = dedup([s[0] for f in m["frames"] for s in f[3]])
+        fg = fg + fnames * 2 + [n[:1] + "*" for n in fnames] + ["?*", "NM*", ""]
+        sg = sg + snames + [n[:1] + "*" for n in snames] + ["?*", "[Ss]*", ""]
+    return fg, sg
+
+
 def case_pool(m):
     """the names a case is about: its explicit pool (related names) or the fixed pool"""
     return m.get("pool") or POOL
@@ -271,9 +320,17 @@ def gen_ops(rng, m, n):
         elif k < 0.84:
             ops.append(["obsolete"])
         elif k < 0.92:
-            ops.append(["addRecv", rng.choice(["*", "F*", "Msg_?", "F1"]), rng.choice(["*", "s?_0", "s1_*", "s*_[12]"]), rng.choice(sorted(names_in_use))])
+            if m.get("shared"):
+                fg, sg = recv_globs(m)
+                ops.append(["addRecv", rng.choice(fg), rng.choice(sg), rng.choice(sorted(names_in_use))])
+            else:
+                ops.append(["addRecv", rng.choice(["*", "F*", "Msg_?", "F1"]), rng.choice(["*", "s?_0", "s1_*", "s*_[12]"]), rng.choice(sorted(names_in_use))])
         else:
-            ops.append(["delRecv", rng.choice(["*", "F*", "Msg_?", "F1"]), rng.choice(["*", "s?_0", "s1_*"]), rng.choice(sorted(names_in_use))])
+            if m.get("shared"):
+                fg, sg = recv_globs(m)
+                ops.append(["delRecv", rng.choice(fg), rng.choice(sg), rng.choice(sorted(names_in_use))])
+            else:
+                ops.append(["delRecv", rng.choice(["*", "F*", "Msg_?", "F1"]), rng.choice(["*", "s?_0", "s1_*"]), rng.choice(sorted(names_in_use))])
     return ops
 
 
@@ -317,6 +374,17 @@ def gen(rng, tier, shard, nshards):
         pool = sep_pool(rng)
         yield {"op": "glob", "c": [rng.choice(sep_patterns(rng, pool) + related_patterns(rng, pool)[:2]),
                                    rng.choice(pool + [sep_derived(rng, rng.choice(pool), pool) or pool[0]])]}
+    # frames and signals without an identity of their own: names and identifiers shared by several frames, one ECU referenced by several of
+    # them (bookkeeping of the operations must go by the objects, not by their names or identifiers); over all four kinds of ECU names
+    for n in range(total // 3):
+        kind = ["fixed", "related", "long", "sep"][n % 4]
+        pool = {"fixed": lambda r: list(POOL), "related": related_pool, "long": long_pool, "sep": sep_pool}[kind](rng)
+        m = gen_matrix_shared(rng, pool)
+        if kind != "fixed":
+            m["pool"] = pool
+        if kind in ("long", "sep"):
+            m["kind"] = kind
+        yield {"op": "seq", "c": {"m": m, "ops": gen_ops(rng, m, rng.randint(1, maxlen))}}
 
 
 def neighbours(case, rng, shard, nshards):
@@ -337,8 +405,10 @@ def build(m):
         if k % 3 == 2:
             ecu.add_attribute("NodeLayer", "1")
         db.ecus.append(ecu)
+    ids = m.get("ids")
     for k, (name, tx, rx, sigs) in enumerate(m["frames"]):
-        fr = cm.Frame(name, arbitration_id=cm.ArbitrationId(k + 1, False), size=8, transmitters=list(tx))
+        fr = cm.Frame(name, arbitration_id=cm.ArbitrationId(ids[k][0], bool(ids[k][1])) if ids else cm.ArbitrationId(k + 1, False), size=8,
+                      transmitters=list(tx))
         for sname, srx in sigs:
             fr.add_signal(cm.Signal(sname, size=1, receivers=list(srx)))
         fr.receivers = list(rx)
@@ -389,7 +459,10 @@ def features(case, impl):
     if case["op"] == "seq":
         m = case["c"]["m"]
         prev = m
-        yield "names=" + ("long (common leading / trailing part)" if m.get("kind") == "long" else "composed with separators (blank, comma, ...)" if m.get("kind") == "sep" else "related (containment / letter case)" if m.get("pool") else "fixed pool")
+        yield ("names (frames with shared names)=" if m.get("shared") else "names=") + ("long (common leading / trailing part)" if m.get("kind") == "long" else "composed with separators (blank, comma, ...)" if m.get("kind") == "sep" else "related (containment / letter case)" if m.get("pool") else "fixed pool")
+        if m.get("shared"):
+            for f in shared_features(case, impl):
+                yield f
         if m.get("kind") == "long":
             for f in long_features(case, impl):
                 yield f
@@ -417,6 +490,43 @@ def features(case, impl):
             yield "has listed-but-unreferenced ECUs"
     else:
         yield "glob=%s" % impl
+
+
+def shared_features(case, impl):
+    """what the cases with shared frame / signal names reached: an operation that changed the receivers of two or more frames of one name
+    (of one identifier), of two signals of one name in a frame"""
+    m = case["c"]["m"]
+    yield "frames: names shared by several frames"
+    names = [f[0] for f in m["frames"]]
+    if names.count("") > 1:
+        yield "frames: several frames without a name"
+    if any(names.count(n) > 1 for n in names if n):
+        yield "frames: several frames of one name"
+    if any(n in case_pool(m) for n in names):
+        yield "frames: a frame named like an ECU"
+    ids = [tuple(i) for i in m["ids"]]
+    if any(ids.count(i) > 1 for i in ids):
+        yield "frames: the very same identifier twice"
+    if any([j[0] for j in ids].count(i[0]) > 1 for i in ids):
+        yield "frames: one identifier number in several frames"
+    if any([s[0] for s in f[3]].count(s[0]) > 1 for f in m["frames"] for s in f[3]):
+        yield "frames: one signal name twice in a frame"
+    prev = m
+    for op, st in zip(case["c"]["ops"], impl["states"]):
+        if len(st["frames"]) == len(prev["frames"]):
+            hit = [k for k, (a, b) in enumerate(zip(prev["frames"], st["frames"])) if a[2] != b[2]]
+            hn = [names[k] for k in hit]
+            if any(hn.count(n) > 1 for n in hn):
+                yield "%s changes the receiver lists of >=2 frames of one name" % op[0]
+            hi = [ids[k][0] for k in hit]
+            if any(hi.count(i) > 1 for i in hi):
+                yield "%s changes the receiver lists of >=2 frames of one identifier number" % op[0]
+            for a, b in zip(prev["frames"], st["frames"]):
+                sn = [x[0] for x, y in zip(a[3], b[3]) if x[1] != y[1]]
+                if any(sn.count(n) > 1 for n in sn):
+                    yield "%s changes the receivers of >=2 signals of one name in a frame" % op[0]
+                    break
+        prev = st
 
 
 def common_prefix_len(a, b):
@@ -511,4 +621,7 @@ def shrink_candidates(case):
     m = c["m"]
     for i in range(len(m["frames"])):
         if len(m["frames"]) > 1:
-            yield {"op": "seq", "c": {"m": dict(m, frames=m["frames"][:i] + m["frames"][i + 1:]), "ops": ops}}
+            m2 = dict(m, frames=m["frames"][:i] + m["frames"][i + 1:])
+            if m.get("ids"):
+                m2["ids"] = m["ids"][:i] + m["ids"][i + 1:]
+            yield {"op": "seq", "c": {"m": m2, "ops": ops}}
